@@ -112,6 +112,10 @@ func ExtractIndexNames(path string) ([]string, []string) {
 	indexValues := make([]string, 0)
 	jsonMatches := rOnIndex.FindAllStringSubmatch(path, -1)
 	for _, m := range jsonMatches {
+		if !strings.Contains(m[1], "=") {
+			// not a key=value group
+			continue
+		}
 		idxName := m[1][1:strings.LastIndex(m[1], "=")]
 		indexNames = append(indexNames, idxName)
 		idxValue := m[1][strings.LastIndex(m[1], "=")+1 : len(m[1])-1]
@@ -135,6 +139,9 @@ func FindPathFromModel(path string, rwPaths ReadWritePathMap, exact bool) (bool,
 
 	if strings.HasSuffix(path, "]") { //Ends with index
 		indices, _ := ExtractIndexNames(path)
+		if len(indices) == 0 {
+			return false, nil, errors.NewInvalid("malformed index in path %s", path)
+		}
 		// Add on the last index
 		searchPathNoIndices = fmt.Sprintf("%s/%s", searchPathNoIndices, indices[len(indices)-1])
 	}
